@@ -753,6 +753,7 @@ def check(pid, tier, seed):
 
     # 1. replay tier: saved regressions and finding witnesses
     replayed = 0
+    replay_known = 0
     witness_of = {}
     for f in findings:
         if f.get("witness"):
@@ -778,6 +779,13 @@ def check(pid, tier, seed):
             elif failed:
                 known_lines.append("KNOWN-FINDING: property=%s %s" %
                                    (pid, f["summary"]))
+            continue
+        if failed and program_known:
+            # a saved program case that shows nothing but an open, listed
+            # finding (everything else about it was checked and holds): the
+            # same disposition as in the generated search, where such cases
+            # are counted as excluded
+            replay_known += 1
             continue
         if failed:
             violations.append((path, msg))
@@ -1046,6 +1054,7 @@ def check(pid, tier, seed):
             "excluded_by_known_finding": excluded,
             "inconclusive": total["inconclusive"],
             "replayed_regressions": replayed,
+            "replayed_showing_only_a_known_finding": replay_known,
             "unconfirmed_failures": unconfirmed,
             "workers_killed_not_reproduced": not_reproduced,
             "workers": nworkers,
